@@ -189,6 +189,9 @@ CHECKS["C05"] = {
         {"probe": "core", "harness": "Harness_C05_deferOnce", "setup": "Setup_C05_deferOnce", "reach": ["c05.defer"], "workers": 8, "sched": "first",
          "configs_quick": ["single"], "configs_thorough": ["single", "wl2"],
          "what": "7 @defer families consumed for one payload then cancelled (single-response transports): no task left blocked"},
+        {"probe": "core", "harness": "Harness_C05_deferCancel", "setup": "Setup_C05_deferCancel", "reach": ["c05.defercancel"], "workers": 10, "sched_confirm": True,
+         "configs_quick": ["single"], "configs_thorough": ["single", "wl2"], "quick": {"sample_models": 8, "sample_every": 53},
+         "what": "7 @defer families drained by a streaming consumer with the context cancelled at 7 points (inside a resolver call / after a payload), every schedule and select choice: the response function returns, no task left"},
     ],
 }
 
